@@ -177,6 +177,11 @@ Scenarios == {
     Sc("v16", <<>>, <<OpN(16), Push(E500)>>, <<>>, "pk"),
     Sc("v1-20-bytes", <<>>, <<OpN(1), Push(EH20)>>, <<E1>>, "pk"),
     Sc("v1-zero-program", <<>>, <<OpN(1), Push(Raw([i \in 1..32 |-> 0]))>>, <<>>, "pk"),
+    Sc("unknown-version-40-bytes", <<>>, <<OpN(3), Push(EF40)>>, <<>>, "pk"),
+    Sc("unknown-version-2-bytes", <<>>, <<OpN(3), Push(E500)>>, <<>>, "pk"),
+    Sc("w0-2-bytes", <<>>, <<Op("OP_0"), Push(E500)>>, <<E1>>, "pk"),
+    Sc("w0-40-bytes", <<>>, <<Op("OP_0"), Push(EF40)>>, <<E1>>, "pk"),
+    Sc("not-a-program-1-byte", <<>>, <<OpN(3), Push(E17)>>, <<>>, "pk"),
     Sc("anchor", <<>>, SeqScript("anchor"), <<>>, "pk"),
     Sc("anchor-witness", <<>>, SeqScript("anchor"), <<E1>>, "pk"),
     Sc("anchor-malleated", <<OpN(1)>>, SeqScript("anchor"), <<>>, "pk"),
@@ -234,6 +239,9 @@ Scenarios == {
     Sc("tr-budget-2", <<>>, P2TR, <<E1, E2, Scr("tbud2"), GoodCtrl("tbud2")>>, "pk"),
     Sc("tr-budget-3", <<>>, P2TR, <<E1, E2, Scr("tbud3"), GoodCtrl("tbud3")>>, "pk"),
     Sc("tr-budget-3-annex", <<>>, P2TR, <<E1, E2, Scr("tbud3"), GoodCtrl("tbud3"), Raw([i \in 1..40 |-> 80])>>, "pk"),
+    \* exactly enough: 50 + 100 = 3 x 50; one byte less
+    Sc("tr-budget-3-exact", <<>>, P2TR, <<E1, E2, Scr("tbud3"), GoodCtrl("tbud3"), Raw([i \in 1..19 |-> 80])>>, "pk"),
+    Sc("tr-budget-3-short", <<>>, P2TR, <<E1, E2, Scr("tbud3"), GoodCtrl("tbud3"), Raw([i \in 1..18 |-> 80])>>, "pk"),
     Sc("tr-unknown-keytype", <<>>, P2TR, <<E1, K1c, Scr("tbud1"), GoodCtrl("tbud1")>>, "pk")
     }
 
